@@ -223,6 +223,7 @@ pub fn run_case(c: &Case, buf: usize, buffered: bool) -> CaseResult {
     st.size = c.ops.len() as u64;
     let state = Rc::new(RefCell::new(SinkState::default()));
     let mut model: Vec<u8> = Vec::new();
+    let mut checked = 0usize;
     {
         let mut w = Writer::new(Box::new(Sink { spec: c.sink.clone(), st: state.clone(), consecutive: 0 }));
         for (i, op) in c.ops.iter().enumerate() {
@@ -266,7 +267,11 @@ pub fn run_case(c: &Case, buf: usize, buffered: bool) -> CaseResult {
             }
             model.extend_from_slice(text.as_bytes());
             let s = state.borrow();
-            let d = first_diff(&s.log, &model);
+            // the log is append-only: only the bytes that arrived since the last check need comparing
+            let d = if s.log.len() <= model.len() { checked + first_diff(&s.log[checked..], &model[checked..s.log.len()]) } else { first_diff(&s.log, &model) };
+            if d == s.log.len() && s.log.len() <= model.len() {
+                checked = s.log.len();
+            }
             vensure!(
                 s.log.len() <= model.len() && d == s.log.len(),
                 "sink-not-a-prefix",
@@ -577,6 +582,12 @@ pub fn decode(data: &[u8], buf: usize) -> Option<Case> {
         if ops.len() >= 60 {
             break;
         }
+    }
+    let mut sink = sink;
+    if ops.iter().any(|o| matches!(o, W::Long { .. } | W::PadTo(_))) && (sink.kind % 4 == 2 || (sink.kind % 4 == 1 && sink.param < 512)) {
+        // byte-at-a-time delivery of >64 KiB is only slow, not more revealing: use chunks of a few hundred bytes
+        sink.kind = 1;
+        sink.param = 509 + sink.param % 1000;
     }
     Some(Case { ops, sink, end_with_flush })
 }
